@@ -10,6 +10,7 @@ fn main() {
     println!("cargo::rerun-if-changed=flows_table.rs");
     let out_dir = std::env::var("OUT_DIR").unwrap();
     let mut syntax: Vec<(String, String)> = Vec::new();
+    let mut irs: Vec<(String, String)> = Vec::new();
     let mut mods = String::new();
 
     macro_rules! flows {
@@ -27,6 +28,10 @@ fn main() {
                     .unwrap_or_else(|e| panic!("partition error in {}: {}", stringify!($name), e.diagnostic))
                     .surface_syntax_string();
                 syntax.push((stringify!($name).to_owned(), s));
+                let ir = hydro_lang::compile::ir::serialize_dedup_shared(|| {
+                    serde_json::to_string(deploy.ir()).expect("ir json")
+                });
+                irs.push((stringify!($name).to_owned(), ir));
                 let code = deploy.generate_embedded("h_hydro_flows");
                 std::fs::write(
                     format!("{out_dir}/{}.rs", stringify!($name)),
@@ -46,6 +51,11 @@ fn main() {
     std::fs::write(format!("{out_dir}/mods.rs"), mods).unwrap();
     let mut tbl = String::from("pub static SYNTAX: &[(&str, &str)] = &[\n");
     for (n, s) in &syntax {
+        tbl.push_str(&format!("    ({:?}, {:?}),\n", n, s));
+    }
+    tbl.push_str("];\n");
+    tbl.push_str("pub static IRJSON: &[(&str, &str)] = &[\n");
+    for (n, s) in &irs {
         tbl.push_str(&format!("    ({:?}, {:?}),\n", n, s));
     }
     tbl.push_str("];\n");
